@@ -144,6 +144,20 @@ fsrc_octet(void *drv, void *out)
     return (int)fsrc_chunk(drv, out, 1);
 }
 
+/* optional: the chunk source exposes a transfer window through the getbuffer extension (the way the plumbing in
+ * endpoints/core.c uses it: a scratch buffer the source's octets are read into before they go to the sink) */
+static size_t fsrc_window;
+static unsigned char fsrc_win[80];
+
+static ByteBuffer
+fsrc_getbuffer(Source *src)
+{
+    (void)src;
+    ByteBuffer b;
+    byte_buffer_use(&b, fsrc_win, fsrc_window);
+    return b;
+}
+
 static void
 mk_source(Source *src, struct fsrc *s, int octet, const unsigned char *p, size_t n, uint64_t cuts, size_t maxper)
 {
@@ -157,6 +171,10 @@ mk_source(Source *src, struct fsrc *s, int octet, const unsigned char *p, size_t
         octet_source_init(src, fsrc_octet, s);
     else
         chunk_source_init(src, fsrc_chunk, s);
+    if (!octet && fsrc_window) {
+        src->ext.getbuffer = fsrc_getbuffer;
+        VH_COUNT("decoder: source exposing a transfer window");
+    }
 }
 
 static void
@@ -649,8 +667,11 @@ u_dec(uint64_t idx, void *arg)
                 size_t l3[3] = { 1 + (size_t)vh_below(&r, 40), len, 1 + (size_t)vh_below(&r, 200) };
                 if ((uint64_t)l3[2] > kmax[k])
                     l3[2] = 7;
-                dec_case(k, dec, (int)((len >> 1) & 1), vh_rand(&r), 1 + (size_t)vh_below(&r, 5), l3,
+                static const size_t wins[] = { 0, 0, 3, 16, 17, 64, 80 };
+                fsrc_window = wins[(len + (size_t)dec) % 7];
+                dec_case(k, dec, (int)((len >> 1) & 1), vh_rand(&r), fsrc_window ? 0 : 1 + (size_t)vh_below(&r, 5), l3,
                          2 + (int)(len % 2), capd);
+                fsrc_window = 0;
                 n += 2;
             }
         vh_sig(0x13300000ull ^ ((uint64_t)k << 32) ^ len);
@@ -707,6 +728,7 @@ harness_run(void)
     for (uint64_t i = 0; i < 18; i++)
         vh_unit("frag", i, u_frag, NULL);
     vh_require("call through a lenp_* wrapper");
+    vh_require("decoder: source exposing a transfer window");
     static const char *req[] = { "encoder: frame emitted to sink", "encoder: prefix object filled",
                                  "encoder: length beyond the kind's maximum refused",
                                  "encoder: chunk list with empty and inactive chunks",
